@@ -300,6 +300,7 @@ def emit_fn(u, file, nm, block):
     spec_lines = []
     proof_lines = []
     closures = {}
+    etas = []
     mode = None
     cur = None
     drop_ret = False
@@ -328,6 +329,13 @@ def emit_fn(u, file, nm, block):
             cur = {"ord": ordn, "let": let, "lines": []}
             closures[ordn] = cur
             mode = "closure"
+        elif s.startswith("//@eta "):
+            # //@eta <Constructor> :: <arg type> -> <result type>   (constructor used as a function value: eta-expanded)
+            m = re.match(r"//@eta\s+(\S+)\s+::\s+(.+?)\s+->\s+(.+)$", s)
+            if not m:
+                raise Undecided("unit %s: malformed //@eta" % u.name)
+            etas.append((m.group(1), m.group(2), m.group(3)))
+            mode = None
         elif s.startswith("//@"):
             raise Undecided("unit %s: unknown sub-directive %r" % (u.name, s))
         else:
@@ -452,6 +460,21 @@ def emit_fn(u, file, nm, block):
             out.append(("} ", None, {"part": "closure-brace"}))
             pos = a
     out.append((b[pos:body_close - 1].decode(), pos, None))
+    # eta-expansion of constructors used as function values (unsupported by Verus): `(Ctor)` -> `(|v: T| -> (r: R) ensures r == Ctor(v) { Ctor(v) })`
+    if getattr(u, "vacuity", False) and not any(re.match(r"\s*requires\b", l) for l in spec_lines):
+        pass
+    for (ctor, aty, rty) in etas:
+        cnt = 0
+        new_out = []
+        for (txt, off, extra) in out:
+            if extra is None and ("(" + ctor + ")") in txt:
+                cnt += txt.count("(" + ctor + ")")
+                txt = txt.replace("(" + ctor + ")", "(|v: %s| -> (r: %s) ensures r == %s(v) { %s(v) })" % (aty, rty, ctor, ctor))
+            new_out.append((txt, off, extra))
+        out = new_out
+        if cnt != 1:
+            raise Undecided("anchor lost: %s::%s uses `%s` as a function value %d times (expected 1)" % (file, nm, ctor, cnt))
+        u.edits.append("%s::%s: constructor `%s` used as a function value eta-expanded to a closure" % (file, nm, ctor))
     # now emit `out` keeping track of lines
     cur_line_parts = []
     cur_info = None
@@ -469,8 +492,13 @@ def emit_fn(u, file, nm, block):
                 flush()
             cur_line_parts.append(l)
             if extra is not None:
-                # spliced text: annotate (wins over source info for this line)
-                cur_info = dict(info_base, **extra)
+                # spliced text: annotate (wins over source info for this line); keep the closure ordinal and source line if known
+                keep = {}
+                if cur_info is not None:
+                    for kk in ("closure", "src"):
+                        if kk in cur_info:
+                            keep[kk] = cur_info[kk]
+                cur_info = dict(info_base, **dict(keep, **extra))
             elif cur_info is None and off is not None:
                 lno = src_line(off) + k
                 cur_info = dict(info_base, part="body", src=(file, lno - 0))
@@ -668,6 +696,17 @@ def name_failure(unit, msg, prim, sec):
             name = "%s.ensures[%s]" % (fn, label) if "postcondition" in msg or "post-condition" in msg else "%s.%s[%s]" % (fn, short, label)
         return name, props or body_props, where
     if body_fn:
+        cl = None
+        for sp in prim + sec:
+            inf = unit.linemap.get(sp["line_start"], {})
+            if "closure" in inf:
+                cl = inf["closure"]
+                break
+        if cl is not None and "closure" in msg:
+            name = "%s.closure#%d.ensures" % (body_fn, cl)
+            if src_ref:
+                name += "@%s:%d" % src_ref
+            return name, body_props, where
         name = "%s::%s" % (body_fn, short)
         if src_ref:
             name += "@%s:%d" % src_ref
